@@ -243,6 +243,11 @@ func genC03Hist(r *Rng, tier string, idx int) []string {
 			cur = c03Clone(st.cmds)
 		case "grow":
 			st.cmds = small(0, 3)
+			if len(cur) != idxN && len(cur)+len(st.cmds) == idxN {
+				// the list was changed behind the engine's back since the index was built (len != N) and this append would
+				// bring it back to exactly N entries: the same boundary as a same-length replacement (see "replace")
+				st.cmds = append(st.cmds, c03GenCmd(r))
+			}
 			if r.Chance(2, 3) {
 				database.VerifPopulateCache(st.cmds)
 			}
